@@ -17,6 +17,7 @@ git -C /repo worktree add -q --detach "$vs" HEAD || exit 2
 git -C "$vs" apply "$dst/patch.diff" || { echo "PATCH DOES NOT APPLY"; git -C /repo worktree remove --force "$vs"; exit 2; }
 for d in $demos; do mkdir -p "$vs/$(dirname $d)" "$dst/demo/$(dirname $d)"; cp "$awt/$d" "$vs/$d"; cp "$awt/$d" "$dst/demo/$d"; done
 E="env -u GOTOOLCHAIN -u GOSUMDB GOFLAGS=-mod=mod GOPROXY=off"
+# VERIF_FROZEN=<dir>: run the first check with the frozen copy of the simulator taken when the wave was launched
 pkgs=$(for d in $demos; do echo "./$(dirname $d)/"; done | sort -u)
 ( cd "$vs" && $E go build ./... ) || { echo "DOES NOT COMPILE"; git -C /repo worktree remove --force "$vs"; exit 2; }
 # pinned suite with the change (demo files temporarily out of the way)
@@ -30,7 +31,7 @@ git -C /repo worktree remove --force "$vs"
 echo "suite with change: $suite"
 echo "demo with change:  $with"
 echo "demo without:      $without"
-check=$(/verif/scripts/mutant.sh "sd-$id" "$dst/patch.diff" "$prop" "$tier" 2>&1 | head -4)
+check=$(${VERIF_FROZEN:-/verif}/scripts/mutant.sh "sd-$id" "$dst/patch.diff" "$prop" "$tier" 2>&1 | head -4)
 echo "our check: $check"
 python3 - "$id" "$prop" "$tier" "$suite" "$with" "$without" "$check" "${5:-}" <<'PY'
 import json,sys
